@@ -24,7 +24,7 @@ RULE = (
     "(n >= 4 or TS1 or calibrated); distinct by JSON hash"
 )
 ASSUMPTIONS = ["jacobian_materialize() handler (exact Jacobians); IWP priors; x64"]
-REQUIRED_LABELS = ["fact:dense", "fact:isotropic", "fact:blockdiag", "lin:ts1", "calib:mle", "calib:dynamic", "n>=6"]
+REQUIRED_LABELS = ["fact:dense", "fact:isotropic", "fact:blockdiag", "lin:ts1", "calib:mle", "calib:dynamic", "n>=6", "prior:iwp"]
 MAX_INCONCLUSIVE = 0.4
 
 
@@ -32,6 +32,11 @@ def strategy(ctx):
     rng = ctx.rng("c02-pool")
     size = 3 if ctx.tier == "quick" else 6  # thorough: many rounds of fresh worker processes, each with its own small pool
     pool = [ssmcase.draw_structure(rng) for _ in range(size)]
+    # exponential priors (integrated Ornstein-Uhlenbeck, Matern) exist for the dense model
+    cfg = ssmcase.draw_structure(rng, facts=("dense",), nmax=4, dmax=2, inits=("exact", "inexact"), steps=(2, 4))
+    cfg["prior"] = str(rng.choice(["ou", "matern"]))
+    cfg["cinit"] = False
+    pool.append(cfg)
     return ssmcase.strategy_from_pool(pool)
 
 
@@ -42,6 +47,7 @@ def check_case(case):
     res.label(f"fact:{cfg['fact']}", f"lin:{cfg['lin']}", f"calib:{cfg['calib'].split('_')[0]}", f"init:{cfg['init']}")
     if n >= 6:
         res.label("n>=6")
+    res.label(f"prior:{cfg.get('prior', 'iwp')}")
     if cfg.get("cinit"):
         res.label("cinit")
     if case["damp"] > 0:
